@@ -419,13 +419,47 @@ func runC08(c *eng.Ctx, thorough bool) {
 		c.Clause("R3", "C08.2")
 		apply := instrsOf(eng.Calls(f, `raft\.\(\*RaftBackend\)\.applyLog$`))
 		if c.Floor(f, "applyLog", len(apply), 1) {
-			// all three sets are ranged over before the log is applied
-			for _, set := range []string{"t.reads", "t.lists", "t.updates"} {
-				var rng []ssa.Instruction
-				for _, in := range eng.Instrs(f, func(in ssa.Instruction) bool { r, ok := in.(*ssa.Range); return ok && eng.Expr(r.X) == set }) {
-					rng = append(rng, in)
+			// helpers of the same receiver type that Commit calls before applyLog (a loop extracted into
+			// a method): the rules below follow them one level deep
+			var helpers []*ssa.Function
+			helperCall := map[*ssa.Function][]ssa.Instruction{}
+			for _, cl := range eng.Calls(f, `^raft\.\(\*RaftTransaction\)\.`) {
+				g := cl.Common().StaticCallee()
+				if g == nil || g == f || g.Blocks == nil {
+					continue
 				}
-				c.Before(f, "range over "+set, rng, "applyLog", apply)
+				if _, seen := helperCall[g]; !seen {
+					helpers = append(helpers, g)
+				}
+				helperCall[g] = append(helperCall[g], cl)
+			}
+			rangesOver := func(g *ssa.Function, set string) []ssa.Instruction {
+				recv := ""
+				if len(g.Params) > 0 {
+					recv = eng.Expr(g.Params[0])
+				}
+				return eng.Instrs(g, func(in ssa.Instruction) bool {
+					r, ok := in.(*ssa.Range)
+					return ok && eng.Expr(r.X) == recv+"."+set
+				})
+			}
+			// all three sets are ranged over before the log is applied
+			for _, set := range []string{"reads", "lists", "updates"} {
+				rng := rangesOver(f, set)
+				what := "range over t." + set
+				if len(rng) == 0 {
+					for _, g := range helpers {
+						if len(rangesOver(g, set)) > 0 {
+							rng = append(rng, helperCall[g]...)
+							what = "range over t." + set + " (in " + eng.FuncName(g) + ")"
+						}
+					}
+				}
+				if len(rng) == 0 {
+					c.Undecided(f, "order{range over t."+set+" < applyLog}", f.Pos(), "no range over t."+set+" in Commit or in a method of the transaction it calls: moved? the rule cannot be evaluated")
+					continue
+				}
+				c.Before(f, what, rng, "applyLog", apply)
 			}
 			// every element ranged over is shipped: an iteration of any of the
 			// loops ends only by appending an entry to the log handed to applyLog,
@@ -434,50 +468,104 @@ func runC08(c *eng.Ctx, thorough bool) {
 			// neither put nor delete.
 			c.Clause("R2", "C08.2")
 			logv := apply[0].(ssa.CallInstruction).Common().Args[2]
-			var ship []ssa.Instruction
-			for _, in := range eng.Instrs(f, func(in ssa.Instruction) bool {
-				st, ok := in.(*ssa.Store)
-				if !ok {
-					return false
-				}
-				fa, ok := st.Addr.(*ssa.FieldAddr)
-				if !ok || fa.X != logv {
-					return false
-				}
-				if fv := eng.FieldVar(fa); fv == nil || fv.Name() != "Operations" {
-					return false
-				}
-				cl, ok := st.Val.(*ssa.Call)
+			isAppend := func(v ssa.Value) bool {
+				cl, ok := v.(*ssa.Call)
 				if !ok {
 					return false
 				}
 				bi, ok := cl.Call.Value.(*ssa.Builtin)
 				return ok && bi.Name() == "append"
-			}) {
-				ship = append(ship, in)
 			}
-			loops := c07Loops(f)
-			if c.Floor(f, "appends to the operations of the log handed to applyLog", len(ship), 5) && c.Floor(f, "loops over the recorded reads, lists and updates", len(loops), 5) {
-				var exits []eng.Edge
-				for _, l := range loops {
-					exits = append(exits, l.Exit)
+			opsStore := func(in ssa.Instruction) (*ssa.Store, bool) {
+				st, ok := in.(*ssa.Store)
+				if !ok {
+					return nil, false
 				}
-				putV, _ := c.P.ConstValue("raft.putOp")
-				delV, _ := c.P.ConstValue("raft.deleteOp")
-				for _, l := range loops {
-					site := "every iteration ships its entry{" + eng.Normalize(l.If.Cond).Base + "}"
-					again := func(in ssa.Instruction) bool { return in == ssa.Instruction(l.If) }
-					var hit *eng.Hit
-					for _, k := range []string{putV, delV} {
-						skip := eng.CondEdges(f, `\.OpType == `+reQuote(k)+`$`, false)
-						if h := eng.Reach(eng.Query{Fn: f, StartEdges: []eng.Edge{l.Body}, Blocked: append(append([]eng.Edge{}, exits...), skip...), Barriers: ship, Target: again}); h != nil {
-							hit = h
+				fa, ok := st.Addr.(*ssa.FieldAddr)
+				if !ok || fa.X != logv {
+					return nil, false
+				}
+				if fv := eng.FieldVar(fa); fv == nil || fv.Name() != "Operations" {
+					return nil, false
+				}
+				return st, true
+			}
+			type shipFn struct {
+				fn   *ssa.Function
+				ship []ssa.Instruction
+			}
+			scopes := []shipFn{{fn: f}}
+			for _, in := range eng.Instrs(f, func(in ssa.Instruction) bool {
+				st, ok := opsStore(in)
+				return ok && isAppend(st.Val)
+			}) {
+				scopes[0].ship = append(scopes[0].ship, in)
+			}
+			// a helper whose result is stored into log.Operations and which only ever returns its
+			// argument extended by appends: its appends ship too
+			for _, g := range helpers {
+				stored := false
+				for _, cl := range helperCall[g] {
+					if cv, ok := cl.(ssa.Value); ok && cv.Referrers() != nil {
+						for _, r := range *cv.Referrers() {
+							if st, ok := opsStore(r); ok && st.Val == cv {
+								stored = true
+							}
 						}
 					}
-					if hit != nil {
-						c.Violation(f, site, l.If.Pos(), "an iteration over the recorded reads/lists/updates can go on to the next element without appending its entry to the log: the read is not verified (or the write not applied) by the state machine", hit.Witness)
-					} else {
-						c.OK(f, site, l.If.Pos(), "no iteration reaches the next one without appending to log.Operations")
+				}
+				if !stored {
+					continue
+				}
+				pure := true
+				for _, r := range eng.Returns(g) {
+					if r.Block().Comment == "recover" {
+						continue
+					}
+					for _, o := range eng.Origins(r.Results[0]) {
+						if _, isP := o.Val.(*ssa.Parameter); !isP && !isAppend(o.Val) {
+							pure = false
+						}
+					}
+				}
+				if !pure {
+					continue
+				}
+				sf := shipFn{fn: g}
+				for _, in := range eng.Instrs(g, func(in ssa.Instruction) bool { v, ok := in.(ssa.Value); return ok && isAppend(v) }) {
+					sf.ship = append(sf.ship, in)
+				}
+				scopes = append(scopes, sf)
+			}
+			nShip, nLoops := 0, 0
+			for _, sc := range scopes {
+				nShip += len(sc.ship)
+				nLoops += len(c07Loops(sc.fn))
+			}
+			if c.Floor(f, "appends to the operations of the log handed to applyLog", nShip, 5) && c.Floor(f, "loops over the recorded reads, lists and updates", nLoops, 5) {
+				putV, _ := c.P.ConstValue("raft.putOp")
+				delV, _ := c.P.ConstValue("raft.deleteOp")
+				for _, sc := range scopes {
+					loops := c07Loops(sc.fn)
+					var exits []eng.Edge
+					for _, l := range loops {
+						exits = append(exits, l.Exit)
+					}
+					for _, l := range loops {
+						site := "every iteration ships its entry{" + eng.Normalize(l.If.Cond).Base + "}"
+						again := func(in ssa.Instruction) bool { return in == ssa.Instruction(l.If) }
+						var hit *eng.Hit
+						for _, k := range []string{putV, delV} {
+							skip := eng.CondEdges(sc.fn, `\.OpType == `+reQuote(k)+`$`, false)
+							if h := eng.Reach(eng.Query{Fn: sc.fn, StartEdges: []eng.Edge{l.Body}, Blocked: append(append([]eng.Edge{}, exits...), skip...), Barriers: sc.ship, Target: again}); h != nil {
+								hit = h
+							}
+						}
+						if hit != nil {
+							c.Violation(sc.fn, site, l.If.Pos(), "an iteration over the recorded reads/lists/updates can go on to the next element without appending its entry to the log: the read is not verified (or the write not applied) by the state machine", hit.Witness)
+						} else {
+							c.OK(sc.fn, site, l.If.Pos(), "no iteration reaches the next one without appending to log.Operations")
+						}
 					}
 				}
 			}
@@ -508,8 +596,10 @@ func runC08(c *eng.Ctx, thorough bool) {
 			// op types of the literal entries
 			c.Clause("R12", "C08.2")
 			ops := map[string]bool{}
-			for _, st := range eng.Stores(f, `^&complit\.OpType$`) {
-				ops[eng.Expr(st.Val)] = true
+			for _, g := range append([]*ssa.Function{f}, helpers...) {
+				for _, st := range eng.Stores(g, `^&complit\.OpType$`) {
+					ops[eng.Expr(st.Val)] = true
+				}
 			}
 			want := []string{"raft.beginTxOp", "raft.commitTxOp", "raft.putOp", "raft.deleteOp"}
 			var got []string
@@ -581,9 +671,9 @@ func runC08(c *eng.Ctx, thorough bool) {
 	raftFastPath(c, "C08.6")
 	if f := c.Fn("raft.(*FSM).applyBatchTxOps"); f != nil {
 		c.Clause("R3", "C08.3")
-		writes := instrsOf(eng.Calls(f, `bbolt\.Bucket\)\.(Put|Delete)$`))
+		writes := c09WriteSites(f)
 		vr := instrsOf(eng.Calls(f, `doVerify(Read|List)$`))
-		if c.Floor(f, "bucket writes", len(writes), 2) && c.Floor(f, "verification calls", len(vr), 2) {
+		if c.Floor(f, "bucket writes", c09WriteCount(f), 2) && c.Floor(f, "verification calls", len(vr), 2) {
 			c.NotAfter(f, "the first bucket write", writes, "a verification call", vr)
 		}
 	}
